@@ -61,14 +61,19 @@ def writeAt (fs : Fs) (ino : Nat) (off : Nat) (bs : Bytes) : Fs :=
   fs.setData ino (c'.take off ++ bs ++ c'.drop (off + bs.length))
 
 /-- `fs::create_dir_all`: creates the missing prefixes, shortest first; fails at a regular file.
-    Prefixes created before the failure stay created. -/
-def mkdirsAux (fs : Fs) : List Path → Fs × Bool
-  | [] => (fs, true)
+    Modelling decision: a failing call is atomic here (the tree is left as it was), whereas the real call may
+    leave the prefixes it created before hitting the obstacle; the generated worlds never put a regular file
+    where an export directory is needed, and the correspondence run would report the difference in `dirs`. -/
+def mkdirsAux (fs : Fs) : List Path → Option Fs
+  | [] => some fs
   | q :: rest =>
     if fs.isDir q then mkdirsAux fs rest
-    else if (fs.inoOf q).isSome then (fs, false)
+    else if (fs.inoOf q).isSome then none
     else mkdirsAux { fs with dirs := q :: fs.dirs } rest
-def mkdirs (fs : Fs) (p : Path) : Fs × Bool := mkdirsAux fs (properPrefixes p ++ [p])
+def mkdirs (fs : Fs) (p : Path) : Fs × Bool :=
+  match mkdirsAux fs (properPrefixes p ++ [p]) with
+  | some fs' => (fs', true)
+  | none => (fs, false)
 
 /-- `OpenOptions::new().write(true).create(true).truncate(false).open(p)`: the inode, created empty if absent -/
 def openCreate (fs : Fs) (p : Path) : Fs × Option Nat :=
